@@ -356,6 +356,55 @@ fn main() {
             });
         }
     }
+    // numbers beyond the 18-digit domain of the comparison rule, restricted to pairs whose order
+    // every faithful reading gives alike: at most one of the two exceeds i64::MAX (so saturating
+    // at any width >= 64 bits, or exact arithmetic, agree).  d x 10^k and neighbours, 17..24 digits.
+    {
+        let mut nums: Vec<String> = vec![];
+        for k in 16..=23usize {
+            for d in [1u32, 2, 3, 4, 5, 6, 7, 8, 9, 12, 18, 20, 25, 27, 33, 41, 46, 50, 62, 64, 65, 77, 82, 83, 90, 99] {
+                let base = format!("{}{}", d, "0".repeat(k));
+                nums.push(base.clone());
+                nums.push(format!("{}{}1", d, "0".repeat(k - 1)));
+                nums.push(format!("{}{}", d - 1 + 0, "9".repeat(k)).trim_start_matches('0').to_string());
+            }
+        }
+        nums.retain(|n| !n.is_empty());
+        nums.sort();
+        nums.dedup();
+        let big = |n: &str| n.len() > 19 || (n.len() == 19 && n > "9223372036854775807");
+        let p = Pattern::new("p-*").unwrap_or_else(|e| run.fault(&format!("p-*: {}", e)));
+        run.bound(format!("large numbers: {} numbers of 17..26 digits (d x 10^k and neighbours), all pairs in which at most one exceeds i64::MAX, as a version component, both argument orders", nums.len()));
+        let idx: Vec<usize> = (0..nums.len()).collect();
+        par_items(&run, "C06 large numbers", &idx, |_, i, t| {
+            for j in 0..nums.len() {
+                let (x, y) = (&nums[*i], &nums[j]);
+                if big(x) && big(y) {
+                    continue;
+                }
+                let numeric = x.len().cmp(&y.len()).then_with(|| x.cmp(y));
+                let (a, b) = (format!("p-1.{}", x), format!("p-1.{}", y));
+                let want = match numeric {
+                    Ordering::Greater => a.as_str(),
+                    Ordering::Less => b.as_str(),
+                    Ordering::Equal => a.as_str(),
+                };
+                t.states += 1;
+                t.transitions += 2;
+                t.evals += 2;
+                t.validated += 2;
+                match guard(|| (p.best_match(&a, &b), p.best_match(&b, &a))) {
+                    Ok((Some(g1), Some(g2))) if g1 == want && g2 == want => {
+                        t.outcome("large-number/agrees");
+                        if big(x) != big(y) {
+                            t.nontrivial += 1;
+                        }
+                    }
+                    other => t.violation(Violation::new("pair", json!({"pattern": "p-*", "pkg1": a, "pkg2": b}), json!(want), json!(format!("{:?}", other)), "a digit run is its numeric value: the candidate with the numerically larger component wins")),
+                }
+            }
+        });
+    }
     // scale: long candidate lists (rotations of the pool, 8..64 names) reduced left-to-right,
     // right-to-left and as a balanced tree
     run.bound("scale: for each pattern, every rotation and its reversal of pool-derived lists of 8, 16, 27 and 64 candidates, reduced left-to-right, right-to-left and as a balanced tree");
